@@ -344,8 +344,16 @@ class BlobFile(AbstractBlob):
 
     def _write_blob(self, blob_bytes: bytes):
         def _write_blob():
-            with open(self.file_path, 'wb') as f:
-                f.write(blob_bytes)
+            # a file under the blob's own name is always complete: write next to it, then rename
+            tmp_path = self.file_path + '.tmp'
+            try:
+                with open(tmp_path, 'wb') as f:
+                    f.write(blob_bytes)
+                os.replace(tmp_path, self.file_path)
+            except BaseException:
+                if os.path.isfile(tmp_path):
+                    os.remove(tmp_path)
+                raise
 
         async def write_blob():
             await self.loop.run_in_executor(None, _write_blob)
